@@ -408,11 +408,12 @@ def _simple_roundtrip(o):
         from fim.slivers.capacities_labels import Labels
         lab = {"v4": Labels(ipv4_subnet="192.168.1.0/24", ipv4="192.168.1.1"),
                "v6": Labels(ipv6_subnet="2001:db8::/48", ipv6="2001:db8::1"),
-               "v4mac": Labels(ipv4_subnet="10.0.0.0/8", ipv4="10.0.0.1", mac="00:11:22:33:44:55")}[v]
+               "v4mac": Labels(ipv4_subnet="10.0.0.0/8", ipv4="10.0.0.1", mac="00:11:22:33:44:55"),
+               "v6mac": Labels(ipv6_subnet="2001:db8::/48", ipv6="2001:db8::1", mac="00:11:22:33:44:66")}[v]
         g = Gateway(lab)
         text = g.to_json()
         back = Gateway.from_json(text)
-        same = (back.gateway, back.subnet, back.mac) == (g.gateway, g.subnet, g.mac)
+        same = (back.gateway, back.subnet, back.mac) == (g.gateway, g.subnet, g.mac) == (lab.ipv4 or lab.ipv6, lab.ipv4_subnet or lab.ipv6_subnet, lab.mac)
         return (v if same else "?"), back is None or back.lab is None, back.to_json() == text
     if c in ("PathInfo", "ERO"):
         from fim.slivers.path_info import PathInfo, ERO, Path, PathRepresentationType
